@@ -61,6 +61,8 @@ def sorted_afterwards(f, local):
 
 def run(F, res, tier):
     every_part_of_a_change_is_applied(F, res)
+    from rules import c13 as _c13h
+    _c13h.last_text_wins(F, res, rule="H11")   # the database ends on the last text recorded for a file, as a fresh analysis would
     source_root_ids_are_stable(F, res)
     reviewed = R.load_reviewed().get("C11", {})
     # ---- H1
